@@ -103,6 +103,19 @@ def c10_scripts(rng, tier, model_prefixes):
             for o in suf:
                 ops += [with_id(o, 0), with_id(o, 1)]
             S.append(ops)
+    # boundary configurations of the size computations (chunk x ratio an integer next to a power of two; huge
+    # and block-aligned sizes): what the constructor computes vs what reset() restores (seeded change C10h)
+    for _ in range(n_gen // 2):
+        for kind in gen.ASYNC:
+            pre = gen.integer_product_history(rng, kind)
+            n = pre[0]
+            sig(n, rng)
+            n.pop("probe", None)
+            suf = [{"op": "process"} for _ in range(rng.randrange(2, 5))]
+            ops = list(pre) + [{"op": "note", "twin": "full", "a": 0, "b": 1}, {"op": "reset", "id": 0}, with_id(n, 1)]
+            for o in suf:
+                ops += [with_id(o, 0), with_id(o, 1)]
+            S.append(ops)
     # every reachable control state of the as-is models as the history before the reset
     for ops0 in model_prefixes:
         n = dict(ops0[0])
